@@ -715,7 +715,7 @@ def run(ck):
             if H.is_call_to(c, 'CxxEvalExprFunction::build') and c.get('k') == 'Call' and fn['name'] != 'build_x':
                 n_v += 1
                 pm = H.parents(fn)
-                gs = [g for g in H.calls_in(fn['body']) if H.is_call_to(g, 'verify_code_return_type') and pm.get(id(g), {}).get('k') == 'Try' and H.lexically_precedes_dominating(fn, g, c)]
+                gs = [g for g in H.calls_in(fn['body']) if H.is_call_to(g, 'verify_code_return_type') and H.some_guard_dominates(fn, g, c)]
                 same = False
                 for g in gs:
                     gc = (H.root_local(g['args'][1]) or {}).get('hid')
